@@ -7,6 +7,7 @@ import (
 	"runtime/pprof"
 
 	"verifharness/c01"
+	"verifharness/c02"
 	"verifharness/c05"
 	"verifharness/c06"
 	"verifharness/c09"
@@ -18,6 +19,7 @@ import (
 
 var runners = map[string]func(*wk.Job, *wk.Worker) error{
 	"c01": c01.Run,
+	"c02": c02.Run,
 	"c05": c05.Run,
 	"c06": c06.Run,
 	"c09": c09.Run,
